@@ -14,7 +14,7 @@ use tokio::io::{AsyncRead, AsyncWrite, ReadBuf};
 use crate::comp_segs::parse_sack;
 use crate::util::{bytes_dot, counting_waker, guarded, pattern};
 
-fn err_name(e: &Error) -> String {
+pub(crate) fn err_name(e: &Error) -> String {
     match e {
         Error::StResetReceived => "ERESET".into(),
         Error::MaxRetransmissionsReached => "EMAXRETX".into(),
@@ -41,7 +41,7 @@ fn err_name(e: &Error) -> String {
     }
 }
 
-fn hash_bytes(b: &[u8]) -> u64 {
+pub(crate) fn hash_bytes(b: &[u8]) -> u64 {
     let mut h: u64 = 0;
     let mut p: u64 = 1;
     for x in b {
@@ -51,7 +51,7 @@ fn hash_bytes(b: &[u8]) -> u64 {
     h
 }
 
-fn type_num(t: Type) -> u8 {
+pub(crate) fn type_num(t: Type) -> u8 {
     match t {
         Type::ST_DATA => 0,
         Type::ST_FIN => 1,
@@ -72,7 +72,7 @@ fn type_of(n: u8) -> Type {
 }
 
 /// datagram -> `t,seq,ack,wnd,ts,tsdiff,conn,sack,plen:hash`
-fn packet_str(d: &[u8]) -> String {
+pub(crate) fn packet_str(d: &[u8]) -> String {
     match UtpHeader::deserialize(d) {
         None => "UNPARSEABLE".into(),
         Some((h, n)) => {
@@ -94,14 +94,14 @@ fn packet_str(d: &[u8]) -> String {
     }
 }
 
-fn opt_ns(x: Option<u128>) -> String {
+pub(crate) fn opt_ns(x: Option<u128>) -> String {
     match x {
         Some(v) => v.to_string(),
         None => "-".into(),
     }
 }
 
-fn fingerprint(d: &v::VsockDriver) -> String {
+pub(crate) fn fingerprint(d: &v::VsockDriver) -> String {
     let s = d.snapshot();
     let segs = crate::comp_segs::digest_snapshot(&d.segments_snapshot(), d.base());
     let rx = d.rx_snapshot();
@@ -166,6 +166,316 @@ fn fingerprint(d: &v::VsockDriver) -> String {
     )
 }
 
+/// One real connection with its application halves and counting wakers; executes the op tokens
+/// of the `vsock` line protocol (shared by comp_vsock.rs and comp_pair.rs).
+pub(crate) struct Endpoint {
+    pub d: v::VsockDriver,
+    rh: Option<UtpStreamReadHalf>,
+    wh: Option<UtpStreamWriteHalf>,
+    dc: std::sync::Arc<crate::util::CountingWaker>,
+    dw: std::task::Waker,
+    rc: std::sync::Arc<crate::util::CountingWaker>,
+    rw: std::task::Waker,
+    wc: std::sync::Arc<crate::util::CountingWaker>,
+    ww: std::task::Waker,
+    pub finished: bool,
+}
+
+/// Result of one op on an endpoint.
+pub(crate) struct OpResult {
+    pub res: String,
+    pub is_poll: bool,
+    /// bytes a read returned
+    pub read: Vec<u8>,
+    /// number of bytes a write accepted
+    pub wrote: usize,
+}
+
+pub(crate) fn opts_of(
+    link_mtu: u64,
+    rx_buf: u64,
+    tx_init: u64,
+    tx_max: u64,
+    nagle: bool,
+    max_retx: u64,
+    inactivity_ns: u64,
+    wait_last_ack: bool,
+    probe_retx: u64,
+) -> SocketOpts {
+    SocketOpts {
+        link_mtu: NonZeroUsize::new(link_mtu as usize),
+        vsock_rx_bufsize_bytes: NonZeroUsize::new(rx_buf as usize),
+        vsock_tx_bufsize_bytes_initial: NonZeroUsize::new(tx_init as usize),
+        vsock_tx_bufsize_bytes_max: NonZeroUsize::new(tx_max as usize),
+        disable_nagle: !nagle,
+        max_retransmissions: NonZeroUsize::new(max_retx as usize),
+        remote_inactivity_timeout: Some(Duration::from_nanos(inactivity_ns)),
+        dont_wait_for_lastack: !wait_last_ack,
+        mtu_probe_max_retransmissions: Some(probe_retx as usize),
+        ..Default::default()
+    }
+}
+
+pub(crate) fn kind_incoming(next_seq_nr: u16, rseq: u16, rconn: u16, rts: u32) -> v::VerifStreamKind {
+    v::VerifStreamKind::Incoming {
+        next_seq_nr,
+        remote_syn: UtpHeader {
+            htype: Type::ST_SYN,
+            connection_id: v::SeqNr(rconn),
+            timestamp_microseconds: rts,
+            seq_nr: v::SeqNr(rseq),
+            ..Default::default()
+        },
+    }
+}
+
+pub(crate) fn kind_outgoing(
+    isn: u16,
+    rseq: u16,
+    rconn: u16,
+    rwnd: u32,
+    rts: u32,
+    syn_rtt: u64,
+) -> v::VerifStreamKind {
+    v::VerifStreamKind::Outgoing {
+        remote_ack: UtpHeader {
+            htype: Type::ST_STATE,
+            connection_id: v::SeqNr(rconn),
+            timestamp_microseconds: rts,
+            wnd_size: rwnd,
+            seq_nr: v::SeqNr(rseq),
+            ack_nr: v::SeqNr(isn),
+            ..Default::default()
+        },
+        syn_sent_ns: 0,
+        ack_received_ns: syn_rtt,
+    }
+}
+
+impl Endpoint {
+    pub fn new(opts: SocketOpts, ipv4: bool, kind: v::VerifStreamKind) -> Result<Self, ()> {
+        let mut d = v::VsockDriver::new(opts, ipv4, kind).map_err(|_| ())?;
+        let (rh, wh) = d.stream.take().unwrap().split();
+        let (dc, dw) = counting_waker();
+        let (rc, rw) = counting_waker();
+        let (wc, ww) = counting_waker();
+        Ok(Endpoint {
+            d,
+            rh: Some(rh),
+            wh: Some(wh),
+            dc,
+            dw,
+            rc,
+            rw,
+            wc,
+            ww,
+            finished: false,
+        })
+    }
+
+    /// Executes one op token of the vsock protocol. `full_bytes`: a read prints the bytes it
+    /// returned (vsock component) instead of their hash (pair component).
+    pub fn op(&mut self, tok: &str, full_bytes: bool) -> OpResult {
+        let mut dcx = Context::from_waker(&self.dw);
+        let mut rcx = Context::from_waker(&self.rw);
+        let mut wcx = Context::from_waker(&self.ww);
+        let d = &mut self.d;
+        let (c, rest) = tok.split_at(1);
+        let mut is_poll = false;
+        let mut read: Vec<u8> = Vec::new();
+        let mut wrote = 0usize;
+        let res: String = match c {
+            "T" => {
+                d.set_now_ns(rest.parse().unwrap());
+                "-".into()
+            }
+            "L" => {
+                d.set_max_datagram(if rest == "-" { None } else { Some(rest.parse().unwrap()) });
+                "-".into()
+            }
+            "P" => {
+                is_poll = true;
+                let script: Vec<v::SendOutcome> = rest
+                    .chars()
+                    .map(|ch| match ch {
+                        'S' => v::SendOutcome::Sent,
+                        'P' => v::SendOutcome::Pending,
+                        'E' => v::SendOutcome::EMsgSize,
+                        _ => v::SendOutcome::IoErr,
+                    })
+                    .collect();
+                d.script_sends(&script);
+                let _ = d.take_sent();
+                match d.poll_once(&mut dcx) {
+                    Poll::Pending => "PEND".into(),
+                    Poll::Ready(Ok(())) => {
+                        self.finished = true;
+                        "OK".into()
+                    }
+                    Poll::Ready(Err(e)) => {
+                        self.finished = true;
+                        err_name(&e)
+                    }
+                }
+            }
+            "M" => {
+                let f: Vec<&str> = rest.split(',').collect();
+                let msg = v::UtpMessage {
+                    header: UtpHeader {
+                        htype: type_of(f[0].parse().unwrap()),
+                        connection_id: v::SeqNr(0),
+                        timestamp_microseconds: f[4].parse().unwrap(),
+                        timestamp_difference_microseconds: 0,
+                        wnd_size: f[3].parse().unwrap(),
+                        seq_nr: v::SeqNr(f[1].parse().unwrap()),
+                        ack_nr: v::SeqNr(f[2].parse().unwrap()),
+                        extensions: Extensions {
+                            selective_ack: parse_sack(f[7]),
+                            ..Default::default()
+                        },
+                    },
+                    data: pattern(f[6].parse().unwrap(), f[5].parse().unwrap()),
+                };
+                d.deliver(msg);
+                "-".into()
+            }
+            "Z" => {
+                d.close_inbox();
+                "-".into()
+            }
+            "W" => {
+                let f: Vec<usize> = rest.split(',').map(|x| x.parse().unwrap()).collect();
+                let buf = pattern(f[1], f[0]);
+                match self.wh.as_mut() {
+                    None => "-".into(),
+                    Some(h) => match Pin::new(h).poll_write(&mut wcx, &buf) {
+                        Poll::Ready(Ok(n)) => {
+                            wrote = n;
+                            format!("W{n}")
+                        }
+                        Poll::Pending => "WP".into(),
+                        Poll::Ready(Err(e)) => match e.to_string().as_str() {
+                            "socket closed" => "WEC".into(),
+                            "no writing after shutdown" => "WES".into(),
+                            _ => "WED".into(),
+                        },
+                    },
+                }
+            }
+            "F" | "H" => match self.wh.as_mut() {
+                None => "-".into(),
+                Some(h) => {
+                    let r = if c == "F" {
+                        Pin::new(h).poll_flush(&mut wcx)
+                    } else {
+                        Pin::new(h).poll_shutdown(&mut wcx)
+                    };
+                    match r {
+                        Poll::Ready(Ok(())) => "UOK".into(),
+                        Poll::Pending => "UPEND".into(),
+                        Poll::Ready(Err(_)) => "UERR".into(),
+                    }
+                }
+            },
+            "R" => match self.rh.as_mut() {
+                None => "-".into(),
+                Some(h) => {
+                    let n: usize = rest.parse().unwrap();
+                    let mut buf = vec![0u8; n];
+                    let mut rb = ReadBuf::new(&mut buf);
+                    match Pin::new(h).poll_read(&mut rcx, &mut rb) {
+                        Poll::Pending => "RPEND".into(),
+                        Poll::Ready(Ok(())) => {
+                            let f = rb.filled();
+                            if f.is_empty() {
+                                "REOF".into()
+                            } else {
+                                read = f.to_vec();
+                                if full_bytes {
+                                    format!("R{}:{}", f.len(), bytes_dot(f))
+                                } else {
+                                    format!("R{}:{}", f.len(), hash_bytes(f))
+                                }
+                            }
+                        }
+                        Poll::Ready(Err(e)) => {
+                            if e.to_string() == "dispatcher dead" {
+                                "RERRDEAD".into()
+                            } else {
+                                "RERRMSG".into()
+                            }
+                        }
+                    }
+                }
+            },
+            "D" => {
+                if rest == "R" {
+                    self.rh = None;
+                } else {
+                    self.wh = None;
+                }
+                "-".into()
+            }
+            _ => "BADOP".into(),
+        };
+        OpResult {
+            res,
+            is_poll,
+            read,
+            wrote,
+        }
+    }
+
+    /// Delivers a message to the connection's inbox (as the socket dispatcher would).
+    pub fn deliver(&mut self, msg: v::UtpMessage) {
+        self.d.deliver(msg);
+    }
+
+    /// The wake-ups fired since the last call: reader, writer, dispatcher.
+    pub fn wakes(&self) -> String {
+        let mut wakes = String::new();
+        for _ in 0..self.rc.take().min(1) {
+            wakes.push('R');
+        }
+        for _ in 0..self.wc.take().min(1) {
+            wakes.push('W');
+        }
+        for _ in 0..self.dc.take().min(1) {
+            wakes.push('D');
+        }
+        if wakes.is_empty() {
+            wakes.push('-');
+        }
+        wakes
+    }
+
+    /// The observation token of one op, in the format of the `vsock` component.
+    pub fn obs(&self, r: &OpResult, wakes: &str) -> (String, Vec<Vec<u8>>) {
+        if r.is_poll {
+            let sent = self.d.take_sent();
+            let pk = if sent.is_empty() {
+                "-".to_string()
+            } else {
+                sent.iter().map(|x| packet_str(x)).collect::<Vec<_>>().join(";")
+            };
+            let snap = self.d.snapshot();
+            (
+                format!(
+                    "P:{}/{}/{}/{}/{}",
+                    r.res,
+                    pk,
+                    wakes,
+                    opt_ns(snap.last_arm_in),
+                    fingerprint(&self.d)
+                ),
+                sent,
+            )
+        } else {
+            (format!("{}/{}/{}", r.res, wakes, fingerprint(&self.d)), Vec::new())
+        }
+    }
+}
+
 pub fn dispatch(t: &[&str]) -> Option<String> {
     if t[0] != "vsock" {
         return None;
@@ -185,18 +495,17 @@ fn run(t: &[&str]) -> String {
     let num = |i: usize| -> u64 { t[i].parse().unwrap() };
     let incoming = t[1] == "in";
     let ipv4 = t[2] == "1";
-    let opts = SocketOpts {
-        link_mtu: NonZeroUsize::new(num(3) as usize),
-        vsock_rx_bufsize_bytes: NonZeroUsize::new(num(4) as usize),
-        vsock_tx_bufsize_bytes_initial: NonZeroUsize::new(num(5) as usize),
-        vsock_tx_bufsize_bytes_max: NonZeroUsize::new(num(6) as usize),
-        disable_nagle: t[7] == "0",
-        max_retransmissions: NonZeroUsize::new(num(8) as usize),
-        remote_inactivity_timeout: Some(Duration::from_nanos(num(9))),
-        dont_wait_for_lastack: t[10] == "0",
-        mtu_probe_max_retransmissions: Some(num(11) as usize),
-        ..Default::default()
-    };
+    let opts = opts_of(
+        num(3),
+        num(4),
+        num(5),
+        num(6),
+        t[7] != "0",
+        num(8),
+        num(9),
+        t[10] != "0",
+        num(11),
+    );
     let isn = num(12) as u16;
     let rseq = num(13) as u16;
     let rconn = num(14) as u16;
@@ -204,220 +513,29 @@ fn run(t: &[&str]) -> String {
     let rts = num(16) as u32;
     let syn_rtt = num(17);
     let kind = if incoming {
-        v::VerifStreamKind::Incoming {
-            next_seq_nr: isn,
-            remote_syn: UtpHeader {
-                htype: Type::ST_SYN,
-                connection_id: v::SeqNr(rconn),
-                timestamp_microseconds: rts,
-                seq_nr: v::SeqNr(rseq),
-                ..Default::default()
-            },
-        }
+        kind_incoming(isn, rseq, rconn, rts)
     } else {
-        v::VerifStreamKind::Outgoing {
-            remote_ack: UtpHeader {
-                htype: Type::ST_STATE,
-                connection_id: v::SeqNr(rconn),
-                timestamp_microseconds: rts,
-                wnd_size: rwnd,
-                seq_nr: v::SeqNr(rseq),
-                ack_nr: v::SeqNr(isn),
-                ..Default::default()
-            },
-            syn_sent_ns: 0,
-            ack_received_ns: syn_rtt,
-        }
+        kind_outgoing(isn, rseq, rconn, rwnd, rts, syn_rtt)
     };
-    let mut d = match v::VsockDriver::new(opts, ipv4, kind) {
-        Ok(d) => d,
+    let mut e = match Endpoint::new(opts, ipv4, kind) {
+        Ok(e) => e,
         Err(_) => return "BADCONFIG".into(),
     };
-    let (rh, wh) = d.stream.take().unwrap().split();
-    let mut rh: Option<UtpStreamReadHalf> = Some(rh);
-    let mut wh: Option<UtpStreamWriteHalf> = Some(wh);
-    let (dc, dw) = counting_waker();
-    let (rc, rw) = counting_waker();
-    let (wc, ww) = counting_waker();
     let mut out: Vec<String> = Vec::new();
-    out.push(format!("I:-/-/{}", fingerprint(&d)));
-    let mut finished = false;
+    out.push(format!("I:-/-/{}", fingerprint(&e.d)));
     for tok in &t[18..] {
-        if finished {
+        if e.finished {
             break;
         }
-        let r = guarded(|| {
-            let mut dcx = Context::from_waker(&dw);
-            let mut rcx = Context::from_waker(&rw);
-            let mut wcx = Context::from_waker(&ww);
-            let (c, rest) = tok.split_at(1);
-            let mut is_poll = false;
-            let res: String = match c {
-                "T" => {
-                    d.set_now_ns(rest.parse().unwrap());
-                    "-".into()
-                }
-                "L" => {
-                    d.set_max_datagram(if rest == "-" { None } else { Some(rest.parse().unwrap()) });
-                    "-".into()
-                }
-                "P" => {
-                    is_poll = true;
-                    let script: Vec<v::SendOutcome> = rest
-                        .chars()
-                        .map(|ch| match ch {
-                            'S' => v::SendOutcome::Sent,
-                            'P' => v::SendOutcome::Pending,
-                            'E' => v::SendOutcome::EMsgSize,
-                            _ => v::SendOutcome::IoErr,
-                        })
-                        .collect();
-                    d.script_sends(&script);
-                    let _ = d.take_sent();
-                    match d.poll_once(&mut dcx) {
-                        Poll::Pending => "PEND".into(),
-                        Poll::Ready(Ok(())) => {
-                            finished = true;
-                            "OK".into()
-                        }
-                        Poll::Ready(Err(e)) => {
-                            finished = true;
-                            err_name(&e)
-                        }
-                    }
-                }
-                "M" => {
-                    let f: Vec<&str> = rest.split(',').collect();
-                    let msg = v::UtpMessage {
-                        header: UtpHeader {
-                            htype: type_of(f[0].parse().unwrap()),
-                            connection_id: v::SeqNr(0),
-                            timestamp_microseconds: f[4].parse().unwrap(),
-                            timestamp_difference_microseconds: 0,
-                            wnd_size: f[3].parse().unwrap(),
-                            seq_nr: v::SeqNr(f[1].parse().unwrap()),
-                            ack_nr: v::SeqNr(f[2].parse().unwrap()),
-                            extensions: Extensions {
-                                selective_ack: parse_sack(f[7]),
-                                ..Default::default()
-                            },
-                        },
-                        data: pattern(f[6].parse().unwrap(), f[5].parse().unwrap()),
-                    };
-                    d.deliver(msg);
-                    "-".into()
-                }
-                "Z" => {
-                    d.close_inbox();
-                    "-".into()
-                }
-                "W" => {
-                    let f: Vec<usize> = rest.split(',').map(|x| x.parse().unwrap()).collect();
-                    let buf = pattern(f[1], f[0]);
-                    match wh.as_mut() {
-                        None => "-".into(),
-                        Some(h) => match Pin::new(h).poll_write(&mut wcx, &buf) {
-                            Poll::Ready(Ok(n)) => format!("W{n}"),
-                            Poll::Pending => "WP".into(),
-                            Poll::Ready(Err(e)) => match e.to_string().as_str() {
-                                "socket closed" => "WEC".into(),
-                                "no writing after shutdown" => "WES".into(),
-                                _ => "WED".into(),
-                            },
-                        },
-                    }
-                }
-                "F" | "H" => match wh.as_mut() {
-                    None => "-".into(),
-                    Some(h) => {
-                        let r = if c == "F" {
-                            Pin::new(h).poll_flush(&mut wcx)
-                        } else {
-                            Pin::new(h).poll_shutdown(&mut wcx)
-                        };
-                        match r {
-                            Poll::Ready(Ok(())) => "UOK".into(),
-                            Poll::Pending => "UPEND".into(),
-                            Poll::Ready(Err(_)) => "UERR".into(),
-                        }
-                    }
-                },
-                "R" => match rh.as_mut() {
-                    None => "-".into(),
-                    Some(h) => {
-                        let n: usize = rest.parse().unwrap();
-                        let mut buf = vec![0u8; n];
-                        let mut rb = ReadBuf::new(&mut buf);
-                        match Pin::new(h).poll_read(&mut rcx, &mut rb) {
-                            Poll::Pending => "RPEND".into(),
-                            Poll::Ready(Ok(())) => {
-                                let f = rb.filled();
-                                if f.is_empty() {
-                                    "REOF".into()
-                                } else {
-                                    format!("R{}:{}", f.len(), bytes_dot(f))
-                                }
-                            }
-                            Poll::Ready(Err(e)) => {
-                                if e.to_string() == "dispatcher dead" {
-                                    "RERRDEAD".into()
-                                } else {
-                                    "RERRMSG".into()
-                                }
-                            }
-                        }
-                    }
-                },
-                "D" => {
-                    if rest == "R" {
-                        rh = None;
-                    } else {
-                        wh = None;
-                    }
-                    "-".into()
-                }
-                _ => "BADOP".into(),
-            };
-            (res, is_poll)
-        });
+        let r = guarded(|| e.op(tok, true));
         match r {
             Err(_) => {
                 out.push("PANIC".into());
                 break;
             }
-            Ok((res, is_poll)) => {
-                let mut wakes = String::new();
-                for _ in 0..rc.take().min(1) {
-                    wakes.push('R');
-                }
-                for _ in 0..wc.take().min(1) {
-                    wakes.push('W');
-                }
-                for _ in 0..dc.take().min(1) {
-                    wakes.push('D');
-                }
-                if wakes.is_empty() {
-                    wakes.push('-');
-                }
-                if is_poll {
-                    let sent = d.take_sent();
-                    let pk = if sent.is_empty() {
-                        "-".to_string()
-                    } else {
-                        sent.iter().map(|x| packet_str(x)).collect::<Vec<_>>().join(";")
-                    };
-                    let snap = d.snapshot();
-                    out.push(format!(
-                        "P:{}/{}/{}/{}/{}",
-                        res,
-                        pk,
-                        wakes,
-                        opt_ns(snap.last_arm_in),
-                        fingerprint(&d)
-                    ));
-                } else {
-                    out.push(format!("{}/{}/{}", res, wakes, fingerprint(&d)));
-                }
+            Ok(r) => {
+                let wakes = e.wakes();
+                out.push(e.obs(&r, &wakes).0);
             }
         }
     }
